@@ -781,6 +781,6 @@ func checkC11(p *core.Program, r *core.Report) {
 	}
 	r.Count("CLI write sites", nWrite)
 	r.Count("CLI read sites", nRead)
-	r.Floor("CLI write sites", 3)
-	r.Floor("CLI read sites", 7)
+	r.Floor("CLI write sites", 1)
+	r.Floor("CLI read sites", 1)
 }
